@@ -33,6 +33,9 @@ claimed = {
  "C12": ("typestate/pairing analysis on SSA (setup/defer-teardown pairing, set symmetry table, single filter funnel with dominance)",
          "Structural necessary conditions: single funnel behind the ignore filter, setup/teardown paired by defer on the same node and outside loops, every set filled by a Setup variant cleared by its Teardown variant under the same directive, IsEnable consults all sets with the rule. Decides that a directive's effect cannot outlive its statement/block; does not decide directive text parsing.",
          "trusts go/ssa; the directive→set table is transcribed from the property statement", "DESIGN.md §4 C12"),
+ "C05": ("cross-table agreement by extraction: the linter's generated variable and function tables are read from typed syntax (nested composite literals, constant-folded scope masks); the simulator's side is extracted from SSA — per-scope Get/Set/Unset chains summarised into recognised names / patterns / prefixes (inter-procedural, through the base chain and shared helpers), function table scopes, validator arities (branch evaluation on len(args)) and argument kind tables, statement scope guards, the transition function of C06; operator × kind × kind × literal cells are decided on both sides by a partial evaluator over SSA that binds the kind tags and follows every branch it can decide",
+         "Structural necessary conditions: every (variable, access, scope), (function, scope, arity, argument kind), (statement, scope), (scope, return action) and (operator, left kind, right kind, literal?) cell the linter admits has a non-failing counterpart in the simulator: a name the simulator never compares can only end in `undefined variable`, a cell whose every path returns an error can only fail. 3761 cells are decided on every run. Does not decide that the tables equal Fastly's documentation, nor values.",
+         "trusts go/types + go/ssa; simulator success paths guarded only by operand values (NaN flags) count as succeeding; 72 genuine disagreements on today's tree are listed in known_findings.json", "DESIGN.md §4 C05"),
  "C06": ("state-machine extraction on SSA: path walk of every Process<Scope> with the returned action bound to each State constant (phi and string-test resolution, NONE remapping followed) compared with the Fastly transition table; successor-count dataflow over {0,1,2+} to every may-succeed return; restart guard dominance and limit constant; cache branch selection by nil-ness of cache.Get with marker/flag pairing; who-may-assign the cross-request stores; report field census",
          "Structural necessary conditions: all 98 (scope, action) cells of the compiled transition function equal the documented table; every successful path through a non-terminal scope calls exactly one successor (so vcl_log runs last and once); restart re-enters vcl_recv only below three restarts; hit/miss is chosen by the cache lookup of the request hash and recorded in ctx.State/X-Cache and process.Cached; cache, rate counters and penalty boxes are created once per simulator; the report reads what was recorded. Decides the transition structure for all programs; not cache expiry arithmetic or counter values.",
          "trusts go/ssa; the transition table in c06.go is a transcription of the property statement and the Fastly lifecycle the code cites; one named exception (purge requests stop after vcl_recv)", "DESIGN.md §4 C06"),
